@@ -796,6 +796,11 @@ func GenC20(seed uint64) *Plan {
 	p := g.basePlan("C20", seed)
 	sp := &p.Sources[0]
 	sp.NURLs = 1
+	if sp.ChainID >= 1<<31 {
+		// (the sources table of the database cannot hold such an id: known
+		// finding F35, shown by the pipeline checks)
+		sp.ChainID = uint64(g.between(1, 9999))
+	}
 	sp.InitLen = g.between(10, 20)
 	sp.Batch, sp.Conc = g.between(1, 4), 1
 	sp.PollMs = g.pickInt([]int{100, 500})
